@@ -351,9 +351,9 @@ def drv_random(ctx: Ctx, sub: SubCheck):
 
     def hyp(shard, t: Tally):
         rc = SLICES[shard % len(SLICES)]
-        ctx.hypothesis(sub.name, build(rc), oracle, ctx.pick(25, 300), tally=t, shard=shard, record=rec)
+        ctx.hypothesis(sub.name, build(rc), oracle, ctx.pick(40, 300), tally=t, shard=shard, record=rec)
 
-    ctx.shards(hyp, list(range(ctx.pick(18, 48))))
+    ctx.shards(hyp, list(range(ctx.pick(30, 48))))
 
 
 SUBCHECKS = [
